@@ -279,29 +279,29 @@ class DiffAntisymRBF(DiffRBF):
         XS = X[:, :2] / length_scale[0]
         YS = Y[:, :2] / length_scale[0]
 
-        dists = cdist(XS[:, 0], YS[:, 0], metric="sqeuclidian")
+        dists = cdist(XS[:, 0:1], YS[:, 0:1], metric="sqeuclidean")
         tmp = np.exp(-0.5 * dists)
-        DK[..., 0] = tmp * (YS[:, 0] - XS[:, 0])
+        DK[..., 0] = tmp * (YS[None, :, 0] - XS[:, None, 0])
         KS = tmp
 
-        dists = cdist(XS[:, 0], YS[:, 1], metric="sqeuclidian")
+        dists = cdist(XS[:, 0:1], YS[:, 1:2], metric="sqeuclidean")
         tmp = np.exp(-0.5 * dists)
-        DK[..., 0] += tmp * (XS[:, 0] - YS[:, 1])
+        DK[..., 0] += tmp * (XS[:, None, 0] - YS[None, :, 1])
         KS[:] -= tmp
 
-        dists = cdist(XS[:, 1], YS[:, 0], metric="sqeuclidian")
+        dists = cdist(XS[:, 1:2], YS[:, 0:1], metric="sqeuclidean")
         tmp = np.exp(-0.5 * dists)
-        DK[..., 1] = tmp * (XS[:, 1] - YS[:, 0])
+        DK[..., 1] = tmp * (XS[:, None, 1] - YS[None, :, 0])
         KS[:] -= tmp
 
-        dists = cdist(XS[:, 1], YS[:, 1], metric="sqeuclidian")
+        dists = cdist(XS[:, 1:2], YS[:, 1:2], metric="sqeuclidean")
         tmp = np.exp(-0.5 * dists)
-        DK[..., 1] += tmp * (YS[:, 1] - XS[:, 1])
+        DK[..., 1] += tmp * (YS[None, :, 1] - XS[:, None, 1])
         KS[:] += tmp
 
         DK[..., 2:] = (KS * KT)[..., None] * (YT[None, :, :] - XT[:, None, :])
         DK[..., 2:] /= length_scale[1:]
-        DK[..., :2] /= length_scale[0]
+        DK[..., :2] *= KT[..., None] / length_scale[0]
         return KS * KT, DK
 
 
